@@ -1293,7 +1293,7 @@ impl<'a, A> Iterator for NamedStrategyActionIter<'a, A> {
 
     fn size_hint(&self) -> (usize, Option<usize>) {
         let len = match &self.iter {
-            ActionType::Data(zip) => zip.len(),
+            ActionType::Data(zip) => zip.clone().filter(|(_, prob)| prob > &&0.0).count(),
             ActionType::Single(once) => once.len(),
         };
         (len, Some(len))
